@@ -571,6 +571,14 @@ def unsat(lits):
             les.append(l[1])
         else:
             eqs.append(l[1])
+    # an inequality that meets the opposite range axiom is an equality (`x mod 4 <= 0` with `0 <= x mod 4`): the
+    # congruence reasoning below reads equalities
+    if len(les) > 1:
+        keys2 = {L.key() for L in les}
+        have_eq = {L.key() for L in eqs}
+        for L in list(les):
+            if len(L.t) == 1 and (-L).key() in keys2 and L.key() < (-L).key() and L.key() not in have_eq and (-L).key() not in have_eq:
+                eqs.append(L)
     # congruence rewriting
     ms = _moduli(atoms)
     if ms:
